@@ -1499,6 +1499,9 @@ int scpiParser_parseAllProgramData(lex_state_t * state, scpi_token_t * token, in
                 char quote = state->pos[0];
 
                 for (q = state->pos + 1; q < end; q++) {
+                    if (((unsigned char) q[0]) > 127) {
+                        break; /* not the beginning of any string: nothing to wait for */
+                    }
                     if (q[0] == quote) {
                         if ((q + 1 < end) && (q[1] == quote)) {
                             q++; /* doubled quote inside the string */
